@@ -110,9 +110,9 @@ def main(argv):
     if cmd == "run":
         n = int(argv[3])
         try:
-            # a run that needs more than 4 GiB of address space for a few thousand atoms does not "complete"
+            # a run that needs more than 2 GiB of address space for a few thousand atoms does not "complete"
             import resource
-            lim = 4 * 1024 ** 3
+            lim = 2 * 1024 ** 3
             resource.setrlimit(resource.RLIMIT_AS, (lim, lim))
         except Exception:
             pass
